@@ -20,6 +20,8 @@ one() {
   git -C /repo worktree remove --force "$scratch/repo"; rm -rf "$scratch" "$vscratch"
 }
 export -f one
+# configuration audit first: no contract clause may be assumed without some unit proving it
+python3 tools/audit_tags.py || { echo "selftest: configuration audit failed"; exit 1; }
 ls selftest/mutants/*${1}*.patch | xargs -P ${SELFTEST_JOBS:-4} -I{} bash -c 'one {}' > /tmp/selftest.$$.out 2>&1
 cat /tmp/selftest.$$.out
 pass=$(grep -c '^SELFTEST ok' /tmp/selftest.$$.out); fail=$(grep -c '^SELFTEST MISS' /tmp/selftest.$$.out); rm -f /tmp/selftest.$$.out
